@@ -17,10 +17,14 @@
                preorder d: depth-first pre-order of forest_of d (node before children, children left to right)
                valid l   : no path repeated, every nested path's parent earlier in l
      Indep.v   child_names q F : names of the children of node q in forest F, left to right
-               kids_order ps q : last elements of those paths of ps whose parent is q, in order of ps *)
+               kids_order ps q : last elements of those paths of ps whose parent is q, in order of ps
+     NdlBlock.v  raw_ndl / ndl_paths / ndl_all (Model.v): SimBuilder::raw_ndl and the depth-first instantiation
+               of an NDL described block (levels = (cluster size or 0, submodule name) per nesting level)
+               block q levels : the block's nodes below attach point q in depth-first order, as name lists
+               zipd ps sts    : the i-th path with the i-th stage count *)
 From Coq Require Import List NArith Arith Bool.
 From DesVerif Require Import Tree.Path Tree.PathLaws Tree.Model Tree.Forest Tree.Refine Tree.Stages
-  Tree.Script Tree.Indep Tree.Lookup Tree.Main.
+  Tree.Script Tree.Indep Tree.Lookup Tree.NdlBlock Tree.Main.
 Import ListNotations.
 Local Open Scope nat_scope.
 
@@ -56,9 +60,31 @@ Proof. exact valid_interleaving_independent. Qed.
 Print Assumptions C12_interleaving_independent.
 
 (* scripts with queries interleaved reach the same builder state *)
-Theorem C12_script_state : forall ops l, node_ins ops = strs l -> build ops = built l.
+Theorem C12_script_state : forall ops l, no_ndl ops -> node_ins ops = strs l -> build ops = built l.
 Proof. exact build_is_built. Qed.
 Print Assumptions C12_script_state.
+
+(* --- the second way of adding nodes: NDL described blocks ---------------- *)
+(* In every state reached by well-formed insertions, sim.node(q, Ndl{..}) with an acceptable
+   attach path q (new, parent present or top level; anywhere relative to existing siblings) is
+   the same as sim.node for each node of the block in depth-first order.  The extended
+   sequence is again well formed and valid, so every theorem of this file applies to it. *)
+Theorem C12_ndl_block_is_adds : forall l q levels sts, wf_ins l -> wf_path q -> good_levels levels ->
+  judge (accepted l) q = Accept ->
+  let adds := zipd (block q levels) sts in
+  ndl_all (built l) (ndl_paths (from (join q)) levels) sts = (built (l ++ adds), None) /\
+  wf_ins (l ++ adds) /\ valid_from (map fst (accepted l)) adds.
+Proof. exact ndl_block_is_adds_thm. Qed.
+Print Assumptions C12_ndl_block_is_adds.
+
+(* a block whose root is a duplicate or an orphan panics and leaves the builder unchanged *)
+Theorem C12_ndl_block_rejected : forall l q levels sts, wf_ins l -> wf_path q ->
+  (judge (accepted l) q = RejDup ->
+     ndl_all (built l) (ndl_paths (from (join q)) levels) sts = (built l, Some P_NDL_DUP)) /\
+  (judge (accepted l) q = RejOrphan ->
+     ndl_all (built l) (ndl_paths (from (join q)) levels) sts = (built l, Some P_NDL_ORPHAN)).
+Proof. exact ndl_block_rejected_thm. Qed.
+Print Assumptions C12_ndl_block_rejected.
 
 (* --- stage_barrier ------------------------------------------------------ *)
 (* in the call log of at_sim_start, a call that comes earlier never has a
@@ -192,6 +218,18 @@ Proof.
   - vm_compute. reflexivity.
   - vm_compute. reflexivity.
 Qed.
+
+(* dc, edge, then the NDL block dc.rack{host[2]} attached below dc although its later sibling
+   edge exists, then edge.fw: pre-order dc, dc.rack, dc.rack.host[0], dc.rack.host[1], edge, edge.fw *)
+Example C12_nonvacuous_ndl :
+  let dc := [100; 99] in let edge := [101; 100; 103; 101] in let rack := [114; 97; 99; 107] in
+  let host := [104; 111; 115; 116] in let fw := [102; 119] in
+  let ops := [Node 1 dc; Node 1 edge; NdlBlock (dc ++ [46] ++ rack) [(2%nat, host)] [2%nat; 1%nat; 0%nat];
+              Node 1 (edge ++ [46] ++ fw)] in
+  map (fun m => (data (mpath m), mord m)) (modules (build ops))
+  = [(dc, 0); (dc ++ [46] ++ rack, 2); (dc ++ [46] ++ rack ++ [46] ++ host ++ [91; 48; 93], 3);
+     (dc ++ [46] ++ rack ++ [46] ++ host ++ [91; 49; 93], 4); (edge, 1); (edge ++ [46] ++ fw, 5)].
+Proof. vm_compute. reflexivity. Qed.
 
 (* duplicates and orphans are rejected, the vector is unaffected *)
 Example C12_nonvacuous_rejects :
